@@ -401,6 +401,8 @@ func redactPipelineStage(stage interface{}, redactFieldNames bool, keyPath []str
 									newPipeline[i] = redactPipelineStage(stage, redactFieldNames, []string{}, isInSearchStage(stage))
 								}
 								newPipelineMap.Set(subK, newPipeline)
+							} else {
+								newPipelineMap.Set(subK, subV)
 							}
 						}
 						newMap.Set(redactedKey, newPipelineMap)
